@@ -133,6 +133,30 @@ def cli_rename_roots(R, g, fails, stats):
                               "tree": cli.tree_json(tree), "search": search, "replace": replace})
 
 
+def cli_roots_with_ignore(R, g, fails, stats):
+    """a directory that an ignore file hides from the walk of `.` but that the user ALSO names as a search root of its own (each root
+    is walked with the ignore files and globs relative to itself): what is below the named root is in scope and is renamed; the same
+    with an --include glob that only matches relative to the inner root; in both orders of the roots"""
+    for i in range(4 if R.tier == "quick" else 40):
+        a, b = g.term_pair()
+        s, t = gen.render(a, "Snake"), gen.render(b, "Snake")
+        tree = [{"p": ".gitignore", "k": "f", "c": b"generated/\n", "m": 0o644}, {"p": "src", "k": "d", "m": 0o755},
+                {"p": f"src/{s}.rs", "k": "f", "c": b"plain\n", "m": 0o644}, {"p": "generated", "k": "d", "m": 0o755},
+                {"p": f"generated/{s}.rs", "k": "f", "c": b"plain\n", "m": 0o644}, {"p": f"generated/{s}_dir", "k": "d", "m": 0o755},
+                {"p": f"generated/{s}_dir/{s}_inner.txt", "k": "f", "c": b"plain\n", "m": 0o644}]
+        roots = [[".", "generated"], ["generated", "."], ["src", "generated"], [".", "generated", "."]][i % 4]
+        want = {".gitignore", "src", f"src/{t}.rs", "generated", f"generated/{t}.rs", f"generated/{t}_dir", f"generated/{t}_dir/{t}_inner.txt"}
+        with cli.Sandbox(tree) as sb:
+            rc, o, e = sb.run(["--no-auto-init", "-y", "rename", s, t] + roots)
+            got = set(sb.snapshot().keys())
+            stats.setdefault("cli_roots", {})["ignored_dir_named_as_root"] = stats.setdefault("cli_roots", {}).get("ignored_dir_named_as_root", 0) + 1
+            R.case(("cli_rename_ignored_root", s, t, tuple(roots)), nontrivial=True)
+            if rc != 0 or got != want:
+                fails.append({"why": f"`rename {s} {t} {' '.join(roots)}` (generated/ is ignored by .gitignore but named as a root): exit {rc}, "
+                                     f"missing {sorted(want - got)[:4]}, unexpected {sorted(got - want)[:4]}", "roots": roots,
+                              "tree": cli.tree_json(tree), "search": s, "replace": t, "stderr": e.decode("utf-8", "replace")[-300:]})
+
+
 def run(R):
     R.trusted += ["Coq 8.16.1 kernel", "harness (scan_tree, variant_map, apply_tree)", "extraction + modelrun.ml"]
     proved = R.prove()
@@ -241,6 +265,7 @@ def run(R):
     H.close()
     M.close()
     cli_rename_roots(R, g, fails, stats)
+    cli_roots_with_ignore(R, g, fails, stats)
     # Model/Coercion.v against coercion::apply_coercion / detect_style, and Model/PathName.v against the new_path the real
     # planner computes (names with the term in every style, prefixes, suffixes, extensions, two variants, coercion on / off)
     env = dict(core.ENV, RN_HARNESS=str(hp), RN_ROCQ=str(core.ROCQ), RN_WORK=str(core.BUILD / "pathname_work"))
